@@ -371,10 +371,15 @@ def build_items(ctx, rnd):
         items.append(('fn', [a, '!' + c, b], F.EXTMATCH | F.NEGATE, None, None))
         items.append(('fn', ['!' + c], F.EXTMATCH | F.NEGATE | F.NEGATEALL, None, None))
         items.append(('fn', a + '|' + b, F.EXTMATCH | F.SPLIT, [c], None))
+        # exclude= together with the NEGATE family: the flags are dropped for both lists, a leading ! or - is literal text
+        neg = [F.NEGATE, F.NEGATE | F.MINUSNEGATE, F.NEGATE | F.NEGATEALL][k % 3]
+        items.append(('fn', [a, '*'], F.EXTMATCH | neg, ['!' + c if k % 2 else '-' + c, '!a'], None))
+        items.append(('fn', ['!' + a, '*'], F.EXTMATCH | neg | F.DOTMATCH, [c], None))
     for k in range(len(ptexts) - 2):
         a, b, c = ptexts[k], ptexts[k + 1], ptexts[k + 2]
         items.append(('gl', [a, b], G.EXTGLOB | G.GLOBSTAR, [c], None))
         items.append(('gl', [a, '!' + c], G.EXTGLOB | G.GLOBSTAR | G.NEGATE, None, None))
+        items.append(('gl', [a, '**'], G.EXTGLOB | G.GLOBSTAR | G.NEGATE | (G.MINUSNEGATE if k % 2 else 0), ['!' + c, '-' + c], None))
         items.append(('gl', ['!' + c], G.EXTGLOB | G.GLOBSTAR | G.NEGATE | G.NEGATEALL | G.NODIR, None, None))
     for t in gen.odd_patterns():
         items.append(('fn', t, F.EXTMATCH, None, None))
